@@ -357,7 +357,7 @@ COMPONENTS = {'real': ['adsg_core graph hash/eq/fingerprint/is_same/copy, pickle
                        'run_timeout -> virtual limiter (never kills here)']}
 ASSUMPTIONS = ['is_same / fingerprint are evaluated with both graphs loaded into one process (they hash strings).',
                'Acyclic choice structures; no grouping connectors; small graphs.']
-WALL_BUDGET = {'quick': 80.0, 'thorough': 1200.0}
+WALL_BUDGET = {'quick': 80.0, 'thorough': 600.0}
 DETERMINISM_RERUNS = {'quick': 4, 'thorough': 16}
 
 
